@@ -25,9 +25,19 @@ type stEvent struct {
 	seed int
 }
 
+// tkEntry scripts the tracker double: the string IsTunnelClosed is asked about -> closed?
+type tkEntry struct {
+	key    []byte
+	closed bool
+}
+
 type stCase struct {
 	tailErr bool
 	rw      bool
+	hasTk   bool      // case carries a "tk … pre …" segment
+	tkNil   bool      // NewFrameStream (nil tracker); otherwise NewFrameStreamWithTracker(double)
+	tk      []tkEntry // answers of the double; unlisted = unknown (not closed)
+	pre     int       // the receiving stream is created only after the first `pre` events are on the wire
 	me      []byte
 	evs     []stEvent
 	ch      []int
@@ -40,7 +50,23 @@ func (c stCase) String() string {
 	if c.rw {
 		rw = 1
 	}
-	fmt.Fprintf(&sb, "st %s rw %d me %s ev %d", tailStr(c.tailErr), rw, vc.Hex(c.me), len(c.evs))
+	fmt.Fprintf(&sb, "st %s rw %d", tailStr(c.tailErr), rw)
+	if c.hasTk {
+		if c.tkNil {
+			sb.WriteString(" tk nil")
+		} else {
+			fmt.Fprintf(&sb, " tk %d", len(c.tk))
+			for _, e := range c.tk {
+				st := "a"
+				if e.closed {
+					st = "c"
+				}
+				fmt.Fprintf(&sb, " %s %s", vc.Hex(e.key), st)
+			}
+		}
+		fmt.Fprintf(&sb, " pre %d", c.pre)
+	}
+	fmt.Fprintf(&sb, " me %s ev %d", vc.Hex(c.me), len(c.evs))
 	for _, e := range c.evs {
 		switch e.kind {
 		case "w":
@@ -60,13 +86,37 @@ func parseSt(toks []string) stCase {
 	// st <tail> rw <b> me <hex> ev <n> … ch <k> … rd <m> …
 	var c stCase
 	c.tailErr = toks[1] == "err"
-	if toks[2] != "rw" || toks[4] != "me" || toks[6] != "ev" {
+	if toks[2] != "rw" {
 		panic("st: malformed case")
 	}
 	c.rw = toks[3] == "1"
-	c.me = vc.UnHex(toks[5])
-	n := atoi(toks[7])
-	i := 8
+	i := 4
+	c.tkNil = true
+	if toks[i] == "tk" {
+		c.hasTk = true
+		if toks[i+1] == "nil" {
+			i += 2
+		} else {
+			c.tkNil = false
+			k := atoi(toks[i+1])
+			i += 2
+			for j := 0; j < k; j++ {
+				c.tk = append(c.tk, tkEntry{vc.UnHex(toks[i]), toks[i+1] == "c"})
+				i += 2
+			}
+		}
+		if toks[i] != "pre" {
+			panic("st: pre expected")
+		}
+		c.pre = atoi(toks[i+1])
+		i += 2
+	}
+	if toks[i] != "me" || toks[i+2] != "ev" {
+		panic("st: malformed case")
+	}
+	c.me = vc.UnHex(toks[i+1])
+	n := atoi(toks[i+3])
+	i += 4
 	for j := 0; j < n; j++ {
 		switch toks[i] {
 		case "w":
@@ -97,6 +147,11 @@ func refStream(c stCase) []byte {
 	}
 	return x
 }
+
+// trackerDouble is the scripted TunnelStateTracker.
+type trackerDouble struct{ closed map[string]bool }
+
+func (t *trackerDouble) IsTunnelClosed(id string) bool { return t.closed[id] }
 
 // ---- loopback TCP pairs
 
@@ -169,8 +224,36 @@ func proxy(from, to *net.TCPConn, sizes []int, propagateClose bool, done chan st
 	}
 }
 
+// stSetup: the two ends of the connection a scenario runs on.
+type stSetup struct {
+	wT, rT   *net.TCPConn
+	rc       *crossnode.Conn // receiving Conn if the setup already made one (pool), else nil
+	useProxy bool
+	fwdDone  chan struct{}
+	prefix   string // prepended to the observation
+}
+
+// plainSetup: a fresh loopback pair, optionally through the re-chunking proxy.
+func plainSetup(c *stCase, addCloser func(io.Closer)) stSetup {
+	wT, pA := tcpPair()
+	addCloser(wT)
+	addCloser(pA)
+	su := stSetup{wT: wT, rT: pA, fwdDone: make(chan struct{})}
+	su.useProxy = c.tailErr || len(c.ch) > 0
+	if su.useProxy {
+		pB, r2 := tcpPair()
+		addCloser(pB)
+		addCloser(r2)
+		su.rT = r2
+		go proxy(pA, pB, c.ch, !c.tailErr, su.fwdDone)
+	}
+	return su
+}
+
 // execSt runs one stream scenario on real FrameStreams over loopback TCP.
-func execSt(toks []string) string {
+func execSt(toks []string) string { return execStWith(toks, plainSetup) }
+
+func execStWith(toks []string, setup func(*stCase, func(io.Closer)) stSetup) string {
 	c := parseSt(toks)
 	type result struct {
 		obs string
@@ -192,25 +275,34 @@ func execSt(toks []string) string {
 				resCh <- "panic " + strings.ReplaceAll(fmt.Sprint(r), " ", "_")
 			}
 		}()
-		wT, pA := tcpPair()
-		addCloser(wT)
-		addCloser(pA)
-		rT := pA
-		fwdDone := make(chan struct{})
-		useProxy := c.tailErr || len(c.ch) > 0
-		if useProxy {
-			pB, r2 := tcpPair()
-			addCloser(pB)
-			addCloser(r2)
-			rT = r2
-			go proxy(pA, pB, c.ch, !c.tailErr, fwdDone)
-		}
+		su := setup(&c, addCloser)
+		wT, rT, useProxy, fwdDone := su.wT, su.rT, su.useProxy, su.fwdDone
 		ctx := context.Background()
 		wc := crossnode.NewConn(ctx, "verif-w", wT, nil)
-		rc := crossnode.NewConn(ctx, "verif-r", rT, nil)
+		rc := su.rc
+		if rc == nil {
+			rc = crossnode.NewConn(ctx, "verif-r", rT, nil)
+		}
 		id, _ := crossnode.TunnelIDFromString(string(c.me))
 		W := crossnode.NewFrameStream(wc, id)
-		R := crossnode.NewFrameStream(rc, id)
+		preDone := make(chan struct{})
+		mkReader := func() *crossnode.FrameStream {
+			if c.pre > 0 { // residual frames are already queued when the stream is created
+				select {
+				case <-preDone:
+					time.Sleep(300 * time.Microsecond)
+				case <-time.After(20 * time.Millisecond): // sender blocked on full socket buffers: bytes are queued
+				}
+			}
+			if c.tkNil {
+				return crossnode.NewFrameStream(rc, id)
+			}
+			td := &trackerDouble{closed: map[string]bool{}}
+			for _, e := range c.tk {
+				td.closed[string(e.key)] = e.closed
+			}
+			return crossnode.NewFrameStreamWithTracker(rc, id, td)
+		}
 
 		// sending end
 		var wres []string
@@ -223,7 +315,13 @@ func execSt(toks []string) string {
 					wpanic <- "panic " + strings.ReplaceAll(fmt.Sprint(r), " ", "_")
 				}
 			}()
-			for _, e := range c.evs {
+			if c.pre <= 0 || c.pre > len(c.evs) {
+				close(preDone)
+			}
+			for ei, e := range c.evs {
+				if c.pre > 0 && ei == c.pre {
+					close(preDone)
+				}
 				switch e.kind {
 				case "w":
 					n, err := W.Write(genBytes(e.n, e.seed))
@@ -254,6 +352,7 @@ func execSt(toks []string) string {
 		}()
 
 		// receiving end
+		R := mkReader()
 		if c.rw {
 			R.CloseWrite()
 		}
@@ -327,7 +426,7 @@ func execSt(toks []string) string {
 			sb.WriteString(" " + r)
 		}
 		fmt.Fprintf(&sb, " rb %d wb %d", b2i(R.IsBroken()), b2i(W.IsBroken()))
-		resCh <- sb.String()
+		resCh <- su.prefix + sb.String()
 	}()
 	select {
 	case o := <-resCh:
@@ -401,7 +500,61 @@ func mkReads(r *vc.Rand, c *stCase, pattern []int, extra int) {
 	c.rd = rd
 }
 
-func stLine(c stCase, kind string, key string) caseLine {
+// foreignKeys: the strings the tracker is asked about for the foreign frames of the case.
+func foreignKeys(c stCase) [][]byte {
+	mid, _ := crossnode.TunnelIDFromString(string(c.me))
+	seen := map[string]bool{}
+	var out [][]byte
+	for _, e := range c.evs {
+		if e.kind != "f" {
+			continue
+		}
+		fid, _ := crossnode.TunnelIDFromString(string(e.tid))
+		if fid == mid {
+			continue
+		}
+		k := crossnode.TunnelIDToString(fid)
+		if !seen[k] {
+			seen[k] = true
+			out = append(out, []byte(k))
+		}
+	}
+	return out
+}
+
+var tkRound int
+
+// withTracker gives a case its constructor/tracker dimension (round robin over: nil tracker, every
+// foreign tunnel closed, every one active, none known, random mix) and sometimes a creation barrier.
+func withTracker(r *vc.Rand, c *stCase) {
+	if c.hasTk {
+		return
+	}
+	c.hasTk = true
+	tkRound++
+	keys := foreignKeys(*c)
+	switch mode := tkRound % 5; mode {
+	case 0:
+		c.tkNil = true
+	case 1, 2:
+		for _, k := range keys {
+			c.tk = append(c.tk, tkEntry{k, mode == 1})
+		}
+	case 3: // tracker present, knows nothing
+	default:
+		for _, k := range keys {
+			if x := r.Intn(3); x < 2 {
+				c.tk = append(c.tk, tkEntry{k, x == 0})
+			}
+		}
+	}
+	if len(c.evs) > 0 && r.Intn(4) == 0 {
+		c.pre = 1 + r.Intn(len(c.evs))
+	}
+}
+
+func stLine(r *vc.Rand, c stCase, kind string, key string) caseLine {
+	withTracker(r, &c)
 	var ek strings.Builder
 	for _, e := range c.evs {
 		fmt.Fprintf(&ek, "%s%x/%d/%d;", e.kind, e.tid, e.ty, e.n)
@@ -410,7 +563,7 @@ func stLine(c stCase, kind string, key string) caseLine {
 	if len(rdk) > 80 {
 		rdk = rdk[:80]
 	}
-	dk := fmt.Sprintf("%x|%s|%v|%v|%s|%v", c.me, ek.String(), c.tailErr, c.rw, rdk, c.ch)
+	dk := fmt.Sprintf("%x|%s|%v|%v|%s|%v|%v%v%d", c.me, ek.String(), c.tailErr, c.rw, rdk, c.ch, c.tkNil, c.tk, c.pre)
 	if len(c.evs) < 2 {
 		dk = ""
 	}
@@ -482,7 +635,7 @@ func genSt(r *vc.Rand, thorough bool) []caseLine {
 		if i%7 == 0 {
 			c.ch = []int{21, 1, 2}
 		}
-		out = append(out, stLine(c, "small-scope", ""))
+		out = append(out, stLine(r, c, "small-scope", ""))
 	}
 	// (2) segmentation boundaries: k*64KiB + {-1,0,+1}, read buffers below / at / above a frame
 	for k := 1; k <= 3; k++ {
@@ -506,7 +659,7 @@ func genSt(r *vc.Rand, thorough bool) []caseLine {
 				if pi%2 == 0 {
 					c.ch = randSizes(r, n, 12)
 				}
-				out = append(out, stLine(c, "segmentation", ""))
+				out = append(out, stLine(r, c, "segmentation", ""))
 			}
 		}
 	}
@@ -545,7 +698,7 @@ func genSt(r *vc.Rand, thorough bool) []caseLine {
 			}
 			c.evs = append(c.evs, stEvent{kind: []string{"cw", "cl"}[(bi+k)%2]})
 			mkReads(r, c, []int{maxFrame}, 3)
-			out = append(out, stLine(*c, []string{"sweep-write", "sweep-writeframe-own", "sweep-writeframe-foreign"}[k], ""))
+			out = append(out, stLine(r, *c, []string{"sweep-write", "sweep-writeframe-own", "sweep-writeframe-foreign"}[k], ""))
 		}
 	}
 	for i, n := range lastChunkSizes(thorough) {
@@ -556,7 +709,7 @@ func genSt(r *vc.Rand, thorough bool) []caseLine {
 		c := stCase{me: meIDs[i%len(meIDs)]}
 		c.evs = []stEvent{{kind: "w", n: k*maxFrame + n, seed: r.Intn(256)}, {kind: "w", n: 2, seed: 5}, {kind: []string{"cw", "cl"}[i%2]}}
 		mkReads(r, &c, []int{maxFrame}, 3)
-		out = append(out, stLine(c, "sweep-last-chunk", ""))
+		out = append(out, stLine(r, c, "sweep-last-chunk", ""))
 	}
 	// (3) random scripts
 	rounds := 450
@@ -628,7 +781,7 @@ func genSt(r *vc.Rand, thorough bool) []caseLine {
 				c.ch = randSizes(r, total+21*len(c.evs), 30)
 			}
 		}
-		out = append(out, stLine(c, "random", ""))
+		out = append(out, stLine(r, c, "random", ""))
 	}
 	return out
 }
